@@ -50,6 +50,11 @@ SWAPS = [
     (r'\bfirst\b', 'last'),
     (r'\bself\b', 'other'), (r'\bother\b', 'self'), (r'\brhs\b', 'self'),
     (r'\blhs\b', 'rhs'),
+    (r' \+= ', ' -= '), (r' -= ', ' += '),
+    (r'\.iter\(\)', '.iter().rev()'),
+    (r'\((&?\w+), (&?\w+)\)', r'(\2, \1)'),
+    (r'^(\s*)if (?!let )(.+) \{$', r'\1if !(\2) {'),
+    (r'^(\s*)\} else if (?!let )(.+) \{$', r'\1} else if !(\2) {'),
 ]
 
 def candidates(path):
